@@ -304,6 +304,19 @@ func genC17(seed uint64, run int, tier string) *Case {
 				op.Tmpl, op.Src, op.COpts = "iif-call", "iif(true, o0())", fn("o0", "obs0")
 			}
 			op.Opts = randOpts(nil)
+		case x < 19 && r.p(0.12):
+			op.Tmpl, op.K = "nested-fail", r.n(3)
+			op.Src = pick(r, []string{"Patient.name.os(fs())", "Patient.name.osi(fs(), 5)", "Patient.name.where(os(fs()) = 'x')", "Patient.name.os(os(fs()))", "Patient.id.os(fs())"})
+			op.COpts = []COpt{{Kind: "fn", Name: "os", Fn: "obsS"}, {Kind: "fn", Name: "osi", Fn: "obsSI"}, {Kind: "fn", Name: "fs", Fn: fmt.Sprintf("fail:%d", op.K)}}
+			op.Opts = randOpts(nil)
+		case x < 19 && r.p(0.12):
+			op.Tmpl = "context-after-clobber"
+			op.Src = pick(r, []string{"iif(cl().exists(), %context)", "cl().select(%context)", "tail().cl().select(%context)", "iif(cl().exists(), %context.tail()) | %context.first()"}[:3])
+			op.COpts = []COpt{{Kind: "fn", Name: "cl", Fn: "clobber"}}
+			op.Opts = randOpts(nil)
+			if r.p(0.5) && len(c.Resources) > 1 {
+				op.Res = []int{0, 1}
+			}
 		case x < 19 && r.p(0.25):
 			op.Tmpl, op.Src = "call-nested", "Patient.name.os(rs())"
 			op.COpts = []COpt{{Kind: "fn", Name: "os", Fn: "obsS"}, {Kind: "fn", Name: "rs", Fn: "obsRetS"}}
